@@ -17,16 +17,30 @@ CHECKS = {
             "Every schedule (within the preemption bound) of small multi-threaded scenarios on the REAL cache is executed and each Get is checked for provenance; includes engineered primary-hash collisions and string/[]byte keys.", "§4 C01", SCHED_NOTE),
     "C02": ("sched", "model_checking", "stateless model checking of the implementation: preemption-bounded DFS under a controlled scheduler",
             "Every schedule within the bound of reader vs overwrite/Del/Clear/eviction/expiry scenarios on the real cache; oracle: no Get starting after OnExit(v) returns v.", "§4 C02", SCHED_NOTE),
+    "C03": ("sched", "model_checking", "explicit-state BFS over operation histories with every applier lag on the real cache (sequential driver: each event runs one thread exclusively; canonical white-box state key)",
+            "Cost accounting invariants are checked in every reachable state of all bounded histories over adversarial cost alphabets (0 via Config.Cost, 1, 2, MaxCost, MaxCost+1), every rotation of the sampling map order.", "§4 C03", SCHED_NOTE),
     "C04": ("sched", "model_checking", "stateless model checking of the implementation: preemption-bounded DFS under a controlled scheduler (racy pairs) + explicit-state search over histories with every applier lag",
             "Exactly-once OnExit accounting checked on every explored execution ending in Close.", "§4 C04", SCHED_NOTE),
+    "C05": ("sched", "model_checking", "explicit-state BFS over operation histories with every applier lag on the real cache (sequential driver: each event runs one thread exclusively; canonical white-box state key) + preemption-bounded DFS with a second thread",
+            "Every single-client history of Set/SetWithTTL/Del/Wait/Get to the depth bound with every applier lag and write-buffer sizes 1/2/8; the Del-wins oracle is evaluated on every transition.", "§4 C05", SCHED_NOTE),
+    "C06": ("sched", "model_checking", "explicit-state BFS over operation histories with every applier lag on the real cache (sequential driver: each event runs one thread exclusively; canonical white-box state key); oracle = reference map + FIFO of pending writes",
+            "Every single-client history to the depth bound with every applier lag; every Get/GetTTL result and the whole map/accounting state must equal the reference map driven by the implementation's own FIFO.", "§4 C06", SCHED_NOTE),
+    "C07": ("sched", "model_checking", "explicit-state BFS over operation histories with every applier lag on the real cache (sequential driver: each event runs one thread exclusively; canonical white-box state key) under a virtual clock + preemption-bounded DFS",
+            "Expiry instants are exact under the virtual clock; every history over TTL values incl. negative, every observation moment.", "§4 C07", SCHED_NOTE),
     "C08": ("sched", "model_checking", "stateless model checking of the implementation: preemption-bounded DFS under a controlled scheduler, run twice - normal build (panic/deadlock/livelock oracle) and -race build with scheduler hand-offs invisible to the race detector",
             "Every unordered pair of the 12 API operation kinds, on conflicting keys with resident and pending entries: every schedule within the bound is executed; the race detector judges every explored schedule of the race build.", "§4 C08", SCHED_NOTE + " The Go race detector (ThreadSanitizer happens-before) is trusted."),
     "C10": ("seq", "model_checking", "explicit-state BFS over operation histories on the real z.Tree (exact page-bytes state key) against a map reference model",
             "Every operation sequence over adversarial key alphabets up to the depth bound, from every reachable state, at the smallest page sizes (splits after 4 keys) and up; long fill/delete histories at larger page sizes.", "§4 C10", SEQ_NOTE),
     "C11": ("seq", "model_checking", "explicit-state BFS over operation histories on the real z.Buffer against a byte-slice reference model",
             "All operation histories up to the depth bound from every reachable state, for every buffer configuration, plus exhaustive sort families around the 1024-slice chunking.", "§4 C11", SEQ_NOTE),
+    "C13": ("sched", "model_checking", "explicit-state BFS over operation histories with every applier lag on the real cache (sequential driver: each event runs one thread exclusively; canonical white-box state key) + preemption-bounded DFS of two writers",
+            "At every quiescent state of every bounded history: accounted keys == stored keys, IterValues == unexpired entries (with stop semantics), empty => full capacity.", "§4 C13", SCHED_NOTE),
+    "C14": ("sched", "model_checking", "preemption-bounded DFS of sweep vs client re-writes (sweep's lock acquisitions are schedule points) + explicit-state BFS over operation histories with every applier lag on the real cache (sequential driver: each event runs one thread exclusively; canonical white-box state key) for applier stalls",
+            "Safety and exactly-once of expiry processing on every explored schedule; bounded liveness on every bounded history. Two open known findings (check-then-act window in cleanup).", "§4 C14", SCHED_NOTE),
     "C16": ("seq", "model_checking", "explicit-state BFS over histories with a Reopen event enabled in every state, on real file-backed trees; differential oracle before/after reopen",
             "Every clean-close point of every bounded history (including after DeleteBelow recycled pages) is closed, reopened and compared; the search continues from the reopened tree under the C10 oracle.", "§4 C16", SEQ_NOTE),
+    "C17": ("sched", "model_checking", "explicit-state BFS over operation histories with every applier lag on the real cache (sequential driver: each event runs one thread exclusively; canonical white-box state key) + preemption-bounded DFS",
+            "Metric conservation laws at every drained state of every bounded history with Metrics on.", "§4 C17", SCHED_NOTE),
     "C18": ("seq", "model_checking", "explicit-state search to fixpoint over the real cmSketch / tinyLFU (counters saturate, so the reachable space is finite) + complete byte-space enumeration of the counter row",
             "All reachable sketch states for small tables, every counter byte value, every table size formula input up to 1025 and around powers of two.", "§4 C18", SEQ_NOTE),
     "C19": ("seq", "model_checking", "explicit-state BFS over Add/AddIfNotHas/Clear/JSON-round-trip sequences on the real Bloom filter against a set reference model",
